@@ -485,12 +485,16 @@ class TaskScenario(ScenarioData):
         if self.currentSlotIdx is None:
             if forward:
                 start_date = self.property.get("start", self.scenarioIdx)
-                if start_date:
+                if start_date and self._hasOwnStart():
                     self.currentSlotIdx = self.project.dateToIdx(start_date)
                 else:
                     # ASAP mode, start at project start or after dependencies
                     # Check ALL dependencies (including inherited) to find the earliest start
                     earliest_start = self.project["start"]
+                    # A start date inherited from an enclosing container is a lower
+                    # bound, it does not replace the dependencies
+                    if start_date and start_date > earliest_start:
+                        earliest_start = start_date
                     for dep in self.getAllDependencies():
                         # dep can be a dict with 'task' key (new format with gap),
                         # or a Task object directly (old format)
@@ -753,7 +757,7 @@ class TaskScenario(ScenarioData):
         if is_milestone:
             # Milestone: set end = start (zero duration)
             if forward:
-                if start_date:
+                if start_date and self._hasOwnStart():
                     self.property[("end", self.scenarioIdx)] = start_date
                 else:
                     # No start date - use current slot (set by dependency calculation)
@@ -816,6 +820,11 @@ class TaskScenario(ScenarioData):
                 return False
 
         return True
+
+    def _hasOwnStart(self) -> bool:
+        """True if the start date was given for this task itself (not inherited from a container)."""
+        provided: bool = self.property.provided("start", self.scenarioIdx)
+        return provided
 
     def _calculatePreciseEndTimeAndRelease(
         self, required_effort: float, effort_before_slot: float, forward: bool
